@@ -471,8 +471,8 @@ impl Serialize for PublicKeyEncryptedSessionKey {
                 }
                 *pk_algo
             }
-            PublicKeyEncryptedSessionKey::Other { version, data, .. } => {
-                writer.write_u8(*version)?;
+            PublicKeyEncryptedSessionKey::Other { data, .. } => {
+                // the version octet has been written above
                 writer.write_all(data)?;
                 return Ok(());
             }
@@ -508,7 +508,8 @@ impl PacketTrait for PublicKeyEncryptedSessionKey {
 }
 
 fn write_len_other(data_len: usize) -> usize {
-    1 + 1 + data_len
+    // version + data
+    1 + data_len
 }
 
 fn write_len_v3(id: &KeyId, values: &PkeskBytes) -> usize {
